@@ -2,11 +2,12 @@
   Model of /repo/src/wave.cpp (+ wave.h): `Wave_File::read` / `parse_chunk`,
   `Wave_Bank::encode_sample`, `add_sample(Tag)`, `add_sample(header, data)`, `find_gap`,
   `fit_sample`, `find_duplicate`, `Sample::to_bytes` / `from_bytes`, the accessors.
-  One definition per C++ function, mirroring the code as it is (after the three `fix:`
-  commits to `find_duplicate`; the `offset=` defect D11 is modelled as it is).
+  One definition per C++ function, mirroring the code as it is (after the `fix:` commits to
+  `find_duplicate`, `Wave_File::read`/`parse_chunk` and `add_sample`; the `offset=` defect D11 is
+  modelled as it is).
 
   Mutation = returned state.  Exceptions / undefined behaviour = `Err`:
-    incomplete / notFound / offsetTooBig / noFit   the four `InputError`s
+    incomplete / notFound / offsetTooBig / noFit / tooLong   the five `InputError`s
     oob      a read or write outside a buffer (heap overflow in the C++)
     hang     a loop of the C++ that never terminates
     divZero  `start / bank_size` with `bank_size == 0` (only `Wave_Bank(0, 0)`)
@@ -31,7 +32,7 @@ namespace Ctrmml.Wave
 open Ctrmml
 
 inductive Err
-  | incomplete | notFound | offsetTooBig | noFit | oob | hang | divZero
+  | incomplete | notFound | offsetTooBig | noFit | tooLong | oob | hang | divZero
   deriving DecidableEq, Repr
 
 def u32 (n : Nat) : Nat := n % 4294967296
@@ -153,6 +154,7 @@ def addFresh (b : Bank) (h : Sample) (data : Bytes) : Except Err (Bank × Nat) :
 
 /-- `Wave_Bank::add_sample(Sample header, const vector<uint8_t>& sample)` -/
 def addSample (b : Bank) (h : Sample) (data : Bytes) : Except Err (Bank × Nat) :=
+  if h.size > data.length then .error .tooLong else
   if b.bankSize = 0 then .error .divZero else
   match findDuplicate b h data with
   | some d =>
@@ -184,99 +186,115 @@ structure WaveFile where
   ndata : Nat := 0        -- data.size()
   deriving Repr
 
-/-- the frame loop of the `data` case.  `rest` = the file from `d` on, `remaining` = bytes left
-before `fdata+8+chunksize` (the C++ tests `d < end` once per frame, so the last frame may read
-beyond the chunk; beyond the file that is a heap overflow = `oob`).  Sample widths other than
-8 and 16 never advance `d`: the loop does not terminate (`hang`). -/
-def decodeFrames (sbits channels : Nat) : Nat → Bytes → Nat → List Nat → Except Err (List Nat)
+/-- checked reads: `.error .oob` = the C++ would read outside the file buffer -/
+def rd32 (f : Bytes) (p : Nat) : Except Err Nat :=
+  match rdLe32 f p with
+  | some v => .ok v
+  | none => .error .oob
+
+def rd16 (f : Bytes) (p : Nat) : Except Err Nat :=
+  match rdLe16 f p with
+  | some v => .ok v
+  | none => .error .oob
+
+/-- the frame loop of the `data` case: `for(d = fdata+8; d + step <= fdata+8+chunksize;)`.
+`rest` = the file from `d` on, `remaining` = bytes left before the end of the chunk.  Each
+frame pushes the first sample of the frame to `data[0]` and advances `d` by `step` bytes
+(the other channel is read and pushed to `data[1]`; reading it outside the buffer is `oob`).
+A sample width other than 8/16 would never advance `d` (`hang`); `fmt` rejects those. -/
+def decodeFrames (sbits step : Nat) : Nat → Bytes → Nat → List Nat → Except Err (List Nat)
   | 0, _, _, _ => .error .hang
   | fuel + 1, rest, remaining, acc =>
-    if remaining = 0 then .ok acc.reverse else
+    if remaining < step then .ok acc.reverse else
     if sbits = 8 then
-      if channels = 2 then
-        match rest with
-        | v :: _ :: r => decodeFrames sbits channels fuel r (remaining - 2) ((((v.toNat ^^^ 0x80) * 256) % 65536) :: acc)
-        | _ => .error .oob
-      else
-        match rest with
-        | v :: r => decodeFrames sbits channels fuel (r.drop (channels - 1)) (remaining - channels) ((((v.toNat ^^^ 0x80) * 256) % 65536) :: acc)
-        | _ => .error .oob
+      match rest, rest.drop (step - 1) with
+      | v :: _, _ :: r => decodeFrames sbits step fuel r (remaining - step) ((((v.toNat ^^^ 0x80) * 256) % 65536) :: acc)
+      | _, _ => .error .oob
     else if sbits = 16 then
-      if channels = 2 then
-        match rest with
-        | b0 :: b1 :: _ :: _ :: r => decodeFrames sbits channels fuel r (remaining - 4) ((b0.toNat + 256 * b1.toNat) :: acc)
-        | _ => .error .oob
-      else
-        match rest with
-        | b0 :: b1 :: r => decodeFrames sbits channels fuel (r.drop (2 * channels - 2)) (remaining - 2 * channels) ((b0.toNat + 256 * b1.toNat) :: acc)
-        | _ => .error .oob
+      match rest, rest.drop (step - 1) with
+      | b0 :: b1 :: _, _ :: r => decodeFrames sbits step fuel r (remaining - step) ((b0.toNat + 256 * b1.toNat) :: acc)
+      | _, _ => .error .oob
     else .error .hang
 
-/-- `Wave_File::parse_chunk(filebuf + pos)`; the result `0` ("failed") is `.ok none`. -/
-def parseChunk (f : Bytes) (pos : Nat) (w : WaveFile) : Except Err (Option WaveFile) := do
-  let some chunkid := rdLe32 f pos | .error .oob
-  let some chunksize := rdLe32 f (pos + 4) | .error .oob
-  if chunkid = Tables.wave_id_fmt then
-    if chunksize < Tables.wave_fmtMin then return none
-    let some stype := rdLe16 f (pos + 0x08) | .error .oob
-    let some channels := rdLe16 f (pos + 0x0a) | .error .oob
-    let some sbits := rdLe16 f (pos + 0x16) | .error .oob
+/-- `case 'fmt '` of `parse_chunk`; `.ok none` = return 0 -/
+def parseFmt (f : Bytes) (pos chunksize : Nat) (w : WaveFile) : Except Err (Option WaveFile) :=
+  if chunksize < Tables.wave_fmtMin then .ok none else
+  match rd16 f (pos + 0x08), rd16 f (pos + 0x0a), rd16 f (pos + 0x16), rd32 f (pos + 0x0c) with
+  | .ok stype, .ok channels, .ok sbits, .ok srate =>
     let step := (sbits * channels) / 8 % 65536
-    let some srate := rdLe32 f (pos + 0x0c) | .error .oob
-    if stype ≠ 1 ∨ channels > 2 ∨ step = 0 then return none
-    return some { w with stype, channels, sbits, step, srate, slength := 0, ndata := channels }
-  else if chunkid = Tables.wave_id_data then
-    if w.step = 0 then return none
-    let d0 ← decodeFrames w.sbits w.channels (chunksize + 1) (f.drop (pos + 8)) chunksize []
-    let data0 := w.data0 ++ d0
-    let w' := { w with data0, slength := u32 data0.length, lstart := 0, lend := 0 }
-    return (if chunksize = 0 then none else some w')
-  else if chunkid = Tables.wave_id_smpl then
-    let w1 := { w with useSmpl := true }
-    let w2 ← (if chunksize ≥ 0x10 then do
-        let some t := rdLe32 f (pos + 0x14) | .error .oob
-        pure { w1 with transpose := if t = 0 then u32 (t + 4294967296 - 60) else t }
-      else pure w1 : Except Err WaveFile)
-    let w3 ← (if chunksize ≥ 0x2c then do
-        let some nloops := rdLe32 f (pos + 0x24) | .error .oob
-        if nloops ≠ 0 then
-          let some ls := rdLe32 f (pos + 0x2c + 8) | .error .oob
-          let some le := rdLe32 f (pos + 0x2c + 12) | .error .oob
-          pure { w2 with lstart := ls, lend := u32 (le + 1), slength := u32 (le + 1) }
-        else pure w2
-      else pure w2 : Except Err WaveFile)
-    return (if chunksize = 0 then none else some w3)
-  else
-    return (if chunksize = 0 then none else some w)
+    if stype ≠ 1 ∨ channels > 2 ∨ step = 0 ∨ (sbits ≠ 8 ∧ sbits ≠ 16) then .ok none
+    else .ok (some { w with stype, channels, sbits, step, srate, slength := 0, ndata := channels })
+  | _, _, _, _ => .error .oob
 
-/-- the chunk loop of `Wave_File::read` -/
+/-- `case 'data'` -/
+def parseData (f : Bytes) (pos chunksize : Nat) (w : WaveFile) : Except Err (Option WaveFile) :=
+  if w.step = 0 then .ok none else
+  match decodeFrames w.sbits w.step (chunksize / w.step + 1) (f.drop (pos + 8)) chunksize [] with
+  | .error e => .error e
+  | .ok d0 => .ok (some { w with data0 := w.data0 ++ d0, slength := u32 (w.data0 ++ d0).length, lstart := 0, lend := 0 })
+
+/-- `case 'smpl'` -/
+def parseSmpl (f : Bytes) (pos chunksize : Nat) (w : WaveFile) : Except Err (Option WaveFile) :=
+  let w1 := { w with useSmpl := true }
+  match (if chunksize ≥ 0x10 then (rd32 f (pos + 0x14)).map fun t =>
+            { w1 with transpose := if t = 0 then u32 (t + 4294967296 - 60) else t }
+         else .ok w1 : Except Err WaveFile) with
+  | .error e => .error e
+  | .ok w2 =>
+    if chunksize ≥ 0x34 then
+      match rd32 f (pos + 0x24) with
+      | .error e => .error e
+      | .ok nloops =>
+        if nloops ≠ 0 then
+          match rd32 f (pos + 0x2c + 8), rd32 f (pos + 0x2c + 12) with
+          | .ok ls, .ok le => .ok (some { w2 with lstart := ls, lend := u32 (le + 1), slength := u32 (le + 1) })
+          | _, _ => .error .oob
+        else .ok (some w2)
+    else .ok (some w2)
+
+/-- `Wave_File::parse_chunk(filebuf + pos)`; the result `0` ("failed") is `.ok none`
+(the normal result `chunksize + 8` is never 0). -/
+def parseChunk (f : Bytes) (pos : Nat) (w : WaveFile) : Except Err (Option WaveFile) :=
+  match rd32 f pos, rd32 f (pos + 4) with
+  | .ok chunkid, .ok chunksize =>
+    if chunkid = Tables.wave_id_fmt then parseFmt f pos chunksize w
+    else if chunkid = Tables.wave_id_data then parseData f pos chunksize w
+    else if chunkid = Tables.wave_id_smpl then parseSmpl f pos chunksize w
+    else .ok (some w)
+  | _, _ => .error .oob
+
+/-- the chunk loop of `Wave_File::read`:
+`while(pos < wavesize && pos < filesize && filesize - pos >= 8)` -/
 def readChunks (f : Bytes) (wavesize : Nat) : Nat → Nat → WaveFile → Except Err (Option WaveFile)
   | 0, _, _ => .error .hang
   | fuel + 1, pos, w =>
-    if pos < wavesize then
-      match rdLe32 f (pos + 4) with
-      | none => .error .oob
-      | some sz =>
-        let chunksize := u32 (sz + 8)
-        if u32 (pos + chunksize) > f.length then .ok none else
+    if pos < wavesize ∧ pos < f.length ∧ f.length - pos ≥ 8 then
+      match rd32 f (pos + 4) with
+      | .error e => .error e
+      | .ok chunksize =>
+        if chunksize > f.length - pos - 8 then .ok none else
         match parseChunk f pos w with
         | .error e => .error e
         | .ok none => .ok none
         | .ok (some w') =>
-          let pos1 := u32 (pos + chunksize)
+          let pos1 := u32 (pos + (chunksize + 8))
           readChunks f wavesize fuel (if pos1 % 2 = 1 then u32 (pos1 + 1) else pos1) w'
     else .ok (some w)
 
-/-- `Wave_File::read` on the contents of an existing file; `.ok none` = return value −1 -/
+/-- `Wave_File::read` on the contents of an existing file; `.ok none` = return value −1.
+Fuel: every iteration of the chunk loop consumes at least 8 bytes. -/
 def readWav (f : Bytes) : Except Err (Option WaveFile) :=
   if f.length < Tables.wave_minFileSize then .ok none else
   if f.take 4 ≠ [0x52, 0x49, 0x46, 0x46] then .ok none else
-  match rdLe32 f 4 with
-  | none => .error .oob
-  | some sz =>
+  match rd32 f 4 with
+  | .error e => .error e
+  | .ok sz =>
     let wavesize := u32 (sz + 8)
     if (f.drop 8).take 4 ≠ [0x57, 0x41, 0x56, 0x45] then .ok none else
-    readChunks f wavesize (f.length + 2) 12 {}
+    match readChunks f wavesize (f.length / 8 + 1) 12 {} with
+    | .error e => .error e
+    | .ok none => .ok none
+    | .ok (some w) => if w.ndata = 0 then .ok none else .ok (some w)
 
 /-- `Wave_Bank::encode_sample` -/
 def encodeSample (input : List Nat) : Bytes :=
@@ -340,7 +358,6 @@ def addSampleTag (b : Bank) (file : Option Bytes) (tag : List String) : Except E
       | .error e => .error e
       | .ok none => .error .notFound
       | .ok (some wf) =>
-        if wf.ndata = 0 then .error .oob else   -- wf.data[0] on an empty vector
         let sample := encodeSample wf.data0
         let header : Sample := { position := 0, start := 0, size := wf.slength, loopStart := wf.lstart, loopEnd := wf.lend,
                                  rate := wf.srate, transpose := wf.transpose, flags := 0 }
